@@ -24,6 +24,8 @@ package builtin
 //@ # never rewritten by the loader.
 //@ func ti/builtin.loadBuiltinFromJSON
 //@   sitesonly
+//@   # C19: an edge is added to what earlier files declared for the class, never in place of it
+//@   mapwrite[C19] base.ClassInheritanceMap len(value) == len(base.ClassInheritanceMap[key]) + 1
 //@   callsite[C20] NewDefineBuiltinMethod a_frame == classDef.Frame && a_class == classDef.Class && !base.IsNameSpace(a_class)
 //@ writers[C20] ti/builtin.ClassDefinition.Frame -
 //@ writers[C20] ti/builtin.ClassDefinition.Class -
